@@ -986,3 +986,34 @@ def replay(ctx, path):
             print("model and implementation disagree")
             return 1
     return 1 if fails else 0
+
+
+# ------------------------------------------------------------------------------------------ C19 adapter
+def c19_stream():
+    """(harness, driver, fn(ctx, exe, w) -> op lines, uses_bash) for property C19 (all build configurations compute
+    the same function): a QUICK-sized stream of sessions (corpus + at most 8000 generated sessions, every bundle
+    represented), drawn with ctx.rng.  Sessions are octet-level (no word-size dependent token), so the 64-bit stream
+    is replayed on the 32-bit-word build as well.  uses_bash = False: the bundle name `hash` is belt-hash here."""
+    def fn(ctx, exe, w):
+        saved = ctx.tier
+        ctx.tier = "quick"
+        try:
+            sessions = generate(ctx)
+        finally:
+            ctx.tier = saved
+        per = {}
+        for s in sessions:
+            per.setdefault(s.b, []).append(s)
+        budget = 8000
+        quota = max(1, budget // len(per))
+        picked = []
+        for b in sorted(per):
+            l = per[b]
+            picked += l if len(l) <= quota else ctx.rng.sample(l, quota)
+        rest = budget - len(picked)
+        if rest > 0:
+            chosen = set(id(x) for x in picked)
+            pool = [x for x in sessions if id(x) not in chosen]
+            picked += ctx.rng.sample(pool, min(rest, len(pool)))
+        return [s.line() for s in corpus_sessions()] + [s.line() for s in picked]
+    return ("harness/c10.c", "drv_c10", fn, False)
